@@ -38,9 +38,14 @@ def execute(case):
 
 def trace_module(o):
     """every observation is judged on its document; every k-th one also has its hook trace walked by the registry machine"""
+    if str(o.get("src", "")).startswith("repo-tests:"):
+        return ["T_AoefTrace"]
     if str(o.get("src", "")).startswith("bundled:"):
         return ["T_AoefC02"]          # no graph description, no hook trace: document clauses only
     return ["T_AoefC02", "T_AoefTrace"] if o["id"] % TRACE_EVERY.get(_TIER, 3) == 0 else ["T_AoefC02"]
+
+def advisory(o):
+    return str(o.get("src", "")).startswith("repo-tests:")
 
 def project(tm, o):
     if tm == "T_AoefTrace":
@@ -57,6 +62,10 @@ def extra_observations(work, tier, seed):
     WORK.mkdir(parents=True, exist_ok=True)
     for p in ac.bundled(tier):
         yield ac.run_recorded(p, WORK)
+    if tier == "thorough":
+        # the executions of the repository's own tests/test_io, recorded by the hooks and walked by the registry machine;
+        # advisory (their documents need not come from save), so their rejects are reported as drift, never as violations
+        yield from ac.repo_test_traces(work)
 
 def nontrivial(o):
     return len(o["in"].get("sw", [])) > 0
